@@ -39,7 +39,10 @@ def _error_code_sticky(db, chk, cfg, rule="ERRCODE.sticky"):
         bases = [b.split("::")[-1] for b in (r.bases if r else [])]
         hier |= {c} | {b for b in bases if b in owners}
     if not recorded:
-        raise AnalysisBroken("ERRCODE.sticky: no constructor records an error in error_code_ (configuration %s)" % cfg)
+        # no constructor reports through the member (any more): whether the constructor still validates its argument is R1's question,
+        # and there is no constructor-time report that a later write could wipe
+        chk.instance(rule, {"classes": [], "constructor_records_error": [], "note": "no constructor writes error_code_", "cfg": cfg})
+        return 0
     n = 0
     for f in db.funcs:
         if f.is_pattern or f.body is None or f.cls not in hier or f.kind in ("CXXConstructorDecl", "CXXDestructorDecl"):
